@@ -342,6 +342,12 @@ def run(ctx):
     ctx.prove()
     from props import genreg
     genreg.steps(ctx, ("arcenum",))      # variable enumeration regenerated from the source (C18_arc_gen)
+    import translate_arccons as TC       # objective / constraint assembly regenerated from the source (C05_gen)
+    ctx.gen_step("arccons", TC.translate, "C05_gen",
+                 "harness/translate_arccons.py + translate_enumcore.py (ast -> Gallina printer for build_objective, "
+                 "build_constraints(_quicker), get_objective_data, get_constraint_data of ArcBasedRoutingProblem; meaning of "
+                 "the emitted combinators -- loops with exceptions, COO matrix at its dense meaning, f-strings: "
+                 "coq/theories/PyArcCons.v, PyEnumCore.v, PyArc.v)")
     rng = ctx.rng
     nmax = 14 if ctx.quick else 16
     n_random = 260 if ctx.quick else 2500
